@@ -80,17 +80,33 @@ impl Report {
         }
         let n = self.violation_counts.entry(key.clone()).or_insert(0);
         *n += 1;
-        let same = self
+        self.keep(v);
+    }
+    fn size(v: &Violation) -> usize {
+        v.case.get("choices").and_then(|c| c.as_array()).map(|a| a.len()).unwrap_or_else(|| v.case.to_string().len())
+    }
+    /// keep at most MAX_WITNESSES_PER_CLASS witnesses per (class, tags), preferring the shortest
+    fn keep(&mut self, v: Violation) {
+        let mut t = v.tags.clone();
+        t.sort();
+        let same: Vec<usize> = self
             .violations
             .iter()
-            .filter(|w| {
+            .enumerate()
+            .filter(|(_, w)| {
                 let mut wt = w.tags.clone();
                 wt.sort();
                 w.class == v.class && wt == t
             })
-            .count();
-        if same < MAX_WITNESSES_PER_CLASS {
+            .map(|(i, _)| i)
+            .collect();
+        if same.len() < MAX_WITNESSES_PER_CLASS {
             self.violations.push(v);
+        } else {
+            let worst = same.iter().copied().max_by_key(|&i| Self::size(&self.violations[i])).unwrap();
+            if Self::size(&v) < Self::size(&self.violations[worst]) {
+                self.violations[worst] = v;
+            }
         }
     }
     pub fn sample(&mut self, v: Value) {
@@ -116,14 +132,7 @@ impl Report {
             *self.violation_counts.entry(k).or_insert(0) += v;
         }
         for v in o.violations {
-            let same = self
-                .violations
-                .iter()
-                .filter(|w| w.class == v.class && w.tags == v.tags)
-                .count();
-            if same < MAX_WITNESSES_PER_CLASS {
-                self.violations.push(v);
-            }
+            self.keep(v);
         }
         for s in o.samples {
             self.sample(s);
